@@ -261,6 +261,11 @@ def model_check(ctx, cases):
     for i, ps in by_case.items():
         c = cases[i]
         tol = n_attempts(c) >= 2 and multi(c)
+        if c.get("hang") and c["output"] and HALF < log_flow(c) <= PIPE:
+            # between half a pipe and a full pipe the copy blocks or not depending on how the stream happens to be
+            # chunked (pipe slots are pages): both verdicts are executions of the model
+            ctx.cov["pipe_window_hangs"] = ctx.cov.get("pipe_window_hangs", 0) + 1
+            continue
         rs = [compare(c, p, tol) for p in ps]
         if any(r is None for r in rs):
             continue
